@@ -90,6 +90,12 @@ Stack2 == [m \in {"a", "b", "c"} |-> 2]
 MenuDet == [m \in {"a", "b", "c"} |-> IF m = "a" THEN {<<Send("ao", 2), Sched(1), Send("at", 1)>>} ELSE IF m = "b" THEN {<<Send("bo", 1)>>} ELSE {<<Sched(2)>>}]
 StartDet == [m \in {"a", "b", "c"} |-> IF m = "a" THEN {<<Send("ao", 1), Send("ao", 3), Sched(1)>>} ELSE {<<Sched(1)>>}]
 NoReplay == <<>>
+NoInject == <<>>
+Inj(k, m, g, t, size, eat) == [k |-> k, m |-> m, g |-> g, t |-> t, size |-> size, eat |-> eat]
+(* before the run: two messages straight to b (one for time 0), one onto a's output gate at time 1 (through the channel), *)
+(* one to a at the time its first self-message may arrive, one onto b's output gate at time 0                              *)
+InjectMix == <<Inj("msg", "b", "", 2, 1, 0), Inj("exit", "", "ao", 1, 2, 0), Inj("msg", "b", "", 0, 1, 0),
+               Inj("msg", "a", "", 1, 1, 0), Inj("exit", "", "bo", 0, 1, 0)>>
 Stack3 == [m \in {"a", "b", "c"} |-> 3]
 NoEndFail == {}
 EndFailA == {"a"}
